@@ -15,7 +15,9 @@ RULE = ("case = 1-5 watchers with priorities from a small range (ties "
         "per-spawn cost (virtual time a fork+exec takes) in {1 us, 20 ms, "
         "45 ms}; the "
         "daemon start plus 0-3 further sequences (start or restart without "
-        "a name or with a glob matching several watchers, stop in between), "
+        "a name or with a glob matching several watchers; all or some watchers "
+        "stopped in between, workers dying just before - noticed by a check or "
+        "not, respawn on or off), "
         "with worker deaths injected at generated kernel-call boundaries of "
         "the sequence.  Non-trivial = >= 2 autostart watchers with different "
         "priorities, or a non-zero delay; distinct by hash of the case.")
@@ -117,6 +119,20 @@ def execute(case):
             if sq.get("stop_first"):
                 w.request('stop', {"waiting": True})
                 w.drain()
+            names_ = sorted(wmap)
+            for idx in sq.get("stop_some", []):
+                w.request('stop', {"name": names_[idx % len(names_)],
+                                   "waiting": True})
+                w.drain()
+            for v in sq.get("pre_deaths", []):
+                # a worker dies and nothing has noticed yet: the watcher is
+                # active but short of a worker when the sequence begins
+                live = w.live()
+                if live:
+                    k.external_death(live[v % len(live)], ["signal", 9])
+                    classes.add('death-before-sequence')
+            if sq.get("check_after_deaths"):
+                w.full_check()
             for f in sq.get("faults", []):
                 k.arm_fault(f[0], f[1], f[2])
             n0 = len(k.spawn_log)
@@ -179,6 +195,8 @@ def _strategy():
                   "graceful_timeout": 0.2}
             if draw(st.integers(0, 4)) == 0:
                 wc["autostart"] = False
+            if draw(st.integers(0, 3)) == 0:
+                wc["respawn"] = False
             ws.append(wc)
         seqs = []
         for _ in range(draw(st.integers(0, 3))):
@@ -188,6 +206,13 @@ def _strategy():
                   "faults": draw(st.lists(fault, max_size=2))}
             if draw(st.integers(0, 2)) == 0:
                 sq["glob"] = draw(st.sampled_from(['w*', 'w[0-2]', 'W*']))
+            if not sq["stop_first"] and draw(st.booleans()):
+                sq["stop_some"] = draw(st.lists(st.integers(0, 4),
+                                                min_size=1, max_size=2))
+            if draw(st.integers(0, 2)) == 0:
+                sq["pre_deaths"] = draw(st.lists(st.integers(0, 7),
+                                                 min_size=1, max_size=2))
+                sq["check_after_deaths"] = draw(st.booleans())
             seqs.append(sq)
         return {"watchers": ws,
                 "global_warmup": draw(st.sampled_from([0, 0.2, 1])),
